@@ -188,18 +188,32 @@ fn stopped() -> Option<String> {
     drop(guard);
     match r { Ok((true, true, true)) => None, Ok(other) => Some(format!("log scenario=stopped expected=Err from info / log_response / wrapper actual={other:?}")), Err(_) => Some("log scenario=stopped expected=Err actual=panic".into()) }
 }
+fn behind() -> Option<String> {
+    // a running logger that is momentarily behind (queue of 1, the consumer starts late): every call still delivers
+    // its event, once, and none reports the logger as stopped
+    let (tx, rx) = sync_channel::<LogEvent>(1);
+    let guard = match set_global_logger(tx) { Ok(g) => g, Err(_) => return Some("log scenario=behind expected=logger installed actual=already set".into()) };
+    let consumer = std::thread::spawn(move || { std::thread::sleep(std::time::Duration::from_millis(150)); let mut v = Vec::new(); while let Ok(e) = rx.recv() { v.push(members(&e)); } v });
+    let oks: Vec<bool> = ["first", "second", "third", "fourth"].iter().map(|m| servlin::log::info(*m, ()).is_ok()).collect();
+    drop(guard);
+    let got = consumer.join().unwrap();
+    let msgs: Vec<String> = got.iter().map(|m| get(m, "msg").unwrap_or("").to_string()).collect();
+    if oks != [true; 4] { return Some(format!("log scenario=behind expected=Ok from every call (the logger is running) actual={oks:?}")); }
+    if msgs != ["\"first\"", "\"second\"", "\"third\"", "\"fourth\""] && msgs != ["first", "second", "third", "fourth"] { return Some(format!("log scenario=behind expected=four events in order, once each actual={msgs:?}")); }
+    None
+}
 fn main() {
     std::panic::set_hook(Box::new(|_| {}));
     let args: Vec<String> = std::env::args().collect();
     let all = ["order", "collision", "many", "levels", "isolation", "response-ok", "response-err", "wrapper"];
-    let run = |n: &str| -> Option<String> { if n == "stopped" { stopped() } else { match std::panic::catch_unwind(|| scenario(n)) { Ok(v) => v, Err(_) => Some(format!("log scenario={n} expected=no-panic actual=panic")) } } };
+    let run = |n: &str| -> Option<String> { if n == "stopped" { stopped() } else if n == "behind" { behind() } else { match std::panic::catch_unwind(|| scenario(n)) { Ok(v) => v, Err(_) => Some(format!("log scenario={n} expected=no-panic actual=panic")) } } };
     if args.len() >= 3 && args[1] == "replay" {
         let w = args[2..].join(" ");
         let n = w.split("scenario=").nth(1).unwrap().split(' ').next().unwrap().to_string();
         match run(&n) { Some(m) => { println!("WITNESS {m}"); std::process::exit(1) } None => { println!("OK witness no longer fails"); std::process::exit(0) } }
     }
     let mut n = 0u64; let mut found = Vec::new();
-    for s in all.iter().chain(["stopped"].iter()) { n += 1; if let Some(m) = run(s) { found.push(m) } }
+    for s in all.iter().chain(["stopped", "behind"].iter()) { n += 1; if let Some(m) = run(s) { found.push(m) } }
     println!("EVALUATED {n}");
     for f in &found { println!("WITNESS {f}"); }
     std::process::exit(if found.is_empty() { 0 } else { 1 });
